@@ -123,9 +123,13 @@ class Ctx:
                 )
         listed: dict[str, list[Finding]] = {}
         unlisted: list[Finding] = []
+        undecided: list[Finding] = []
         for f in self.findings:
             k = match_known(known, self.prop, f)
-            if k is None:
+            if k is None and UNDECIDED_RE.search(f.message):
+                # the abstract evaluator met a construct it does not model: no verdict, and no violation claimed
+                undecided.append(f)
+            elif k is None:
                 unlisted.append(f)
             else:
                 listed.setdefault(k["id"], []).append(f)
@@ -173,6 +177,7 @@ class Ctx:
                 "known_findings_reported": sorted(listed),
                 "undischarged_listed": sum(len(v) for v in listed.values()),
                 "undischarged_unlisted": len(unlisted),
+                "undecided": len(undecided),
                 "source_digest": source_digest(self.src),
                 **self.extra,
             },
@@ -227,9 +232,21 @@ class Ctx:
             for r, c in per_rule.items():
                 if c > 4:
                     print(f"  ... {r}: {c} undischarged in total, see {path}")
+            for f in undecided[:4]:
+                print(f"  UNDECIDED {f.rule}: {f.construct}: {f.message}")
             print(f"VIOLATION property={self.prop} replay={path}")
             return 1
+        if undecided:
+            for f in undecided[:6]:
+                print(f"  UNDECIDED {f.rule}: {f.construct}: {f.message}")
+            raise AnalysisError(
+                f"{len(undecided)} obligation(s) could not be decided: the code uses a construct the abstract "
+                "evaluator does not model (no violation is claimed; extend the evaluator or the rule)"
+            )
         return 0
+
+
+UNDECIDED_RE = re.compile(r"not interpretable|uninterpretable", re.I)
 
 
 def load_known() -> list[dict]:
